@@ -31,13 +31,6 @@ def C36_full : Prop :=
 theorem C36_sound : C36_full := fun cfg ths sched h =>
   (run_inv (inv_init cfg ths h) sched).limits
 
-theorem run_cfg (s : State) (sched : List Nat) : (run s sched).cfg = s.cfg := by
-  induction sched generalizing s with
-  | nil => rfl
-  | cons i r ih =>
-    show (run (step s i) r).cfg = s.cfg
-    rw [ih]; exact step_cfg s i
-
 /-- stronger: established **plus reserved** slots never exceed the limits (a reservation is never over-committed) -/
 theorem C36_sound_reserved (cfg : Cfg) (ths : List Thread) (sched : List Nat)
     (h : ∀ t ∈ ths, t.pc = .start) :
